@@ -18,7 +18,7 @@ def build():
            note='set(Evolution.objects.using(db).filter(app_label=...).values_list("label", flat=True)): the labels '
                 'recorded as applied (ORM query trusted)')
     w.contract(
-        'get_unapplied_evolutions', module=EVUTIL, serves=['C08'],
+        'get_unapplied_evolutions', module=EVUTIL, serves=['C08', 'C16'],
         params={'app': APP, 'database': K.Str}, defaults={'database': 'default'}, returns=K.Seq(K.Str),
         abstract={'applied = set(': ['applied = applied_labels(get_app_label(app), database)']},
         ensures=[
